@@ -33,7 +33,10 @@ CONSTANTS SrcSeq,      \* sequence of sources, in the order the cache queries th
           EXPORT,      \* write behaviours at terminal states
           InitFree,    \* arbitrary initial source contents
           WithWaiter,  \* allow one call to be parked on the writer lock
-          MaxAuto      \* how many times the refresh interval may elapse (0: no automatic refresh)
+          MaxAuto,     \* how many times the refresh interval may elapse (0: no automatic refresh)
+          PREGHOST     \* TRUE: the snapshot a publication started from is part of the state (ghost `pre`), so that the same
+                       \* published snapshot reached from different predecessors -- an update that was still in the update
+                       \* map, or already merged -- gives different states and both histories are exported and replayed
 
 Src == {SrcSeq[i] : i \in 1..Len(SrcSeq)}
 Prov == {ProvSeq[i] : i \in 1..Len(ProvSeq)}
@@ -57,11 +60,12 @@ VARIABLES content,   \* [Src -> [Prov -> 0..MaxVer]]   0 = source does not repor
           lastArg,   \* provider and return value of the last completed miss
           calls, envs, h,
           autos,     \* how often the refresh interval has elapsed
+          pre,       \* ghost (PREGHOST): the published snapshot <<rM, rU>> the last publication started from
           resets     \* ghost: clock value at which p's armed removal timer was last cleared because a source reported p again (0: never);
                      \* part of the VIEW so that histories with a disappearance and a return are explored and exported as such
 
-vars == <<content, up, now, ticks, seq, write, rM, rU, w, waiter, seen, rep, goneAt, prevVis, hi, last, lastArg, calls, envs, h, autos, resets>>
-view == <<content, up, now, ticks, seq, write, rM, rU, w, waiter, seen, rep, goneAt, prevVis, hi, last, lastArg, calls, envs, autos, resets>>
+vars == <<content, up, now, ticks, seq, write, rM, rU, w, waiter, seen, rep, goneAt, prevVis, hi, last, lastArg, calls, envs, h, autos, resets, pre>>
+view == <<content, up, now, ticks, seq, write, rM, rU, w, waiter, seen, rep, goneAt, prevVis, hi, last, lastArg, calls, envs, autos, resets, pre>>
 
 NoEnt == [ver |-> NONE, sq |-> 0, us |-> 0, ex |-> 0]
 AnyProv == ProvSeq[1]
@@ -107,7 +111,7 @@ Init ==
   /\ rM = [p \in Prov |-> NONE] /\ rU = [p \in Prov |-> NONE]
   /\ w = Idle /\ waiter = NoWaiter
   /\ seen = Zero /\ rep = {} /\ goneAt = Zero /\ prevVis = [p \in Prov |-> NONE] /\ hi = Zero
-  /\ last = "init" /\ lastArg = [p |-> AnyProv, ret |-> 0] /\ calls = 0 /\ envs = 0 /\ h = InitSteps(content) /\ autos = 0 /\ resets = Zero
+  /\ last = "init" /\ lastArg = [p |-> AnyProv, ret |-> 0] /\ calls = 0 /\ envs = 0 /\ h = InitSteps(content) /\ autos = 0 /\ resets = Zero /\ pre = <<>>
 
 BudgetA == calls < MaxCalls /\ calls' = calls + 1 /\ UNCHANGED envs         \* an API call starts
 Budget == BudgetA /\ UNCHANGED autos
@@ -120,15 +124,15 @@ EnvBudget == Useful /\ envs < MaxEnv /\ envs' = envs + 1 /\ UNCHANGED <<calls, a
 EnvSet(s, p, v) ==
   /\ EnvBudget /\ content[s][p] # v /\ content' = [content EXCEPT ![s][p] = v]
   /\ Rec("EnvSet", s, p, v, 0, VisSeq) /\ last' = "env"
-  /\ UNCHANGED <<up, now, ticks, seq, write, rM, rU, w, waiter, seen, rep, goneAt, resets, prevVis, lastArg, hi>>
+  /\ UNCHANGED <<up, now, ticks, seq, write, rM, rU, w, waiter, seen, rep, goneAt, resets, pre, prevVis, lastArg, hi>>
 EnvFlip(s) ==
   /\ EnvBudget /\ up' = [up EXCEPT ![s] = ~@]
   /\ Rec(IF up[s] THEN "EnvDown" ELSE "EnvUp", s, AnyProv, 0, 0, VisSeq) /\ last' = "env"
-  /\ UNCHANGED <<content, now, ticks, seq, write, rM, rU, w, waiter, seen, rep, goneAt, resets, prevVis, lastArg, hi>>
+  /\ UNCHANGED <<content, now, ticks, seq, write, rM, rU, w, waiter, seen, rep, goneAt, resets, pre, prevVis, lastArg, hi>>
 Tick ==
   /\ Useful /\ Free /\ ticks < MaxTicks /\ ticks' = ticks + 1 /\ now' = now + TickLen
   /\ Rec("Tick", SrcSeq[1], AnyProv, 0, 0, VisSeq) /\ last' = "tick"
-  /\ UNCHANGED <<content, up, seq, write, rM, rU, w, waiter, seen, rep, goneAt, resets, prevVis, lastArg, hi>>
+  /\ UNCHANGED <<content, up, seq, write, rM, rU, w, waiter, seen, rep, goneAt, resets, pre, prevVis, lastArg, hi>>
 
 ---------------------------------------------------------------------------
 (* Refresh *)
@@ -147,7 +151,7 @@ RefreshBegin ==
   /\ IF FIXED THEN /\ w' = [Idle EXCEPT !.pc = "refresh", !.i = 1] /\ UNCHANGED seq
               ELSE /\ w' = [Idle EXCEPT !.pc = "refresh", !.i = 1, !.sq = seq + 1] /\ seq' = seq + 1
   /\ Rec("RefreshBegin", SrcSeq[1], AnyProv, 0, 0, VisSeq) /\ last' = "refreshBegin"
-  /\ UNCHANGED <<content, up, now, ticks, write, rM, rU, waiter, seen, rep, goneAt, resets, prevVis, lastArg, hi>>
+  /\ UNCHANGED <<content, up, now, ticks, write, rM, rU, waiter, seen, rep, goneAt, resets, pre, prevVis, lastArg, hi>>
 
 (* FetchAll of source w.i returns (or fails, and the refresh moves on). *)
 RefreshFetch ==
@@ -165,14 +169,14 @@ RefreshFetch ==
                      /\ seen' = [p \in Prov |-> Max(seen[p], content[s][p])]
      /\ Rec("RefreshFetch", s, AnyProv, w.i, IF up[s] THEN 1 ELSE 0, VisSeq)
   /\ last' = "refreshFetch"
-  /\ UNCHANGED <<content, up, now, ticks, seq, rM, rU, waiter, rep, goneAt, resets, prevVis, lastArg>>
+  /\ UNCHANGED <<content, up, now, ticks, seq, rM, rU, waiter, rep, goneAt, resets, pre, prevVis, lastArg>>
 
 (* The caller's context is cancelled while source w.i is being fetched: Refresh returns the error. *)
 RefreshCancel ==
   /\ Free /\ w.pc = "refresh" /\ w.i <= N /\ ~w.auto        \* the automatic refresh runs under the background context
   /\ w' = Idle
   /\ Rec("RefreshCancel", SrcSeq[w.i], AnyProv, w.i, 0, VisSeq) /\ last' = "refreshCancelled"
-  /\ UNCHANGED <<content, up, now, ticks, seq, write, rM, rU, waiter, seen, rep, goneAt, resets, prevVis, lastArg, hi>>
+  /\ UNCHANGED <<content, up, now, ticks, seq, write, rM, rU, waiter, seen, rep, goneAt, resets, pre, prevVis, lastArg, hi>>
 
 (* Everything after the source loop, up to and including pc.read.Store: one critical section
    whose intermediate states nobody can observe.                                             *)
@@ -197,7 +201,7 @@ RefreshPublish ==
                ELSE rM
          u2 == IF merge THEN [p \in Prov |-> NONE] ELSE upd
          sn == IF FIXED THEN [p \in Prov |-> Max(seen[p], w.fm[p])] ELSE seen
-     IN /\ seq' = sq /\ write' = w2 /\ rM' = m2 /\ rU' = u2
+     IN /\ seq' = sq /\ write' = w2 /\ rM' = m2 /\ rU' = u2 /\ pre' = (IF PREGHOST THEN <<rM, rU>> ELSE pre)
         /\ seen' = [p \in Prov |-> IF p \in gone THEN 0 ELSE sn[p]]
         /\ rep' = {p \in Prov : w.fm[p] > 0}
         /\ goneAt' = [p \in Prov |-> IF w.fm[p] > 0 THEN 0
@@ -226,7 +230,7 @@ GetHit(p, t) ==
   /\ RecAu("GetHit", SrcSeq[1], p, 0, Visible(p), VisSeq, <<>>, IF write[p].ver # NONE THEN 1 ELSE 0,
            IF t = 0 THEN 0 ELSE IF w.pc = "idle" THEN 1 ELSE 2)
   /\ last' = "getHit"
-  /\ UNCHANGED <<content, up, now, ticks, write, rM, rU, seen, rep, goneAt, resets, prevVis, lastArg, hi>>
+  /\ UNCHANGED <<content, up, now, ticks, write, rM, rU, seen, rep, goneAt, resets, pre, prevVis, lastArg, hi>>
 
 (* fetchMissing after the lock is taken.  If the provider is in the write map the snapshot is
    consulted again ("stored by previous request"); an entry that is in the write map but in
@@ -242,7 +246,7 @@ EnterMiss(p, how) ==
 MissBegin(p) ==
   /\ Budget /\ Visible(p) = NONE /\ w.pc = "idle" /\ waiter.kind = "none"
   /\ EnterMiss(p, "MissBegin")
-  /\ UNCHANGED <<content, up, now, ticks, seq, rM, rU, waiter, seen, rep, goneAt, resets, prevVis, lastArg, hi>>
+  /\ UNCHANGED <<content, up, now, ticks, seq, rM, rU, waiter, seen, rep, goneAt, resets, pre, prevVis, lastArg, hi>>
 
 MissFetch ==
   /\ Free /\ w.pc = "miss" /\ w.i <= N
@@ -251,13 +255,13 @@ MissFetch ==
      IN /\ w' = [w EXCEPT !.i = @ + 1, !.best = Max(@, got)]
         /\ Rec("MissFetch", s, w.p, w.i, got, VisSeq)
   /\ last' = "missFetch"
-  /\ UNCHANGED <<content, up, now, ticks, seq, write, rM, rU, waiter, seen, rep, goneAt, resets, prevVis, lastArg, hi>>
+  /\ UNCHANGED <<content, up, now, ticks, seq, write, rM, rU, waiter, seen, rep, goneAt, resets, pre, prevVis, lastArg, hi>>
 
 MissCancel ==
   /\ Free /\ w.pc = "miss" /\ w.i <= N
   /\ w' = Idle
   /\ Rec("MissCancel", SrcSeq[w.i], w.p, w.i, 0, VisSeq) /\ last' = "missCancelled"
-  /\ UNCHANGED <<content, up, now, ticks, seq, write, rM, rU, waiter, seen, rep, goneAt, resets, prevVis, lastArg, hi>>
+  /\ UNCHANGED <<content, up, now, ticks, seq, write, rM, rU, waiter, seen, rep, goneAt, resets, pre, prevVis, lastArg, hi>>
 
 MissPublish ==
   /\ Free /\ w.pc = "miss" /\ w.i = N + 1
@@ -272,7 +276,7 @@ MissPublish ==
                                     ELSE IF rM[x] = NONE THEN 0 ELSE rM[x]]
                ELSE rM
          u2 == IF merge THEN [x \in Prov |-> NONE] ELSE upd
-     IN /\ write' = w2 /\ rM' = m2 /\ rU' = u2
+     IN /\ write' = w2 /\ rM' = m2 /\ rU' = u2 /\ pre' = (IF PREGHOST THEN <<rM, rU>> ELSE pre)
         /\ seen' = [seen EXCEPT ![p] = w.best]
         /\ prevVis' = [x \in Prov |-> Visible(x)]
         /\ Rec("MissPublish", SrcSeq[1], p, IF merge THEN 1 ELSE 0, w.best, VisSeqOf(m2, u2))
@@ -288,13 +292,13 @@ PiggyStart ==       \* Refresh while the lock is held: waits, then returns witho
   /\ WithWaiter /\ Budget /\ w.pc # "idle" /\ waiter.kind = "none"
   /\ waiter' = [kind |-> "piggy", p |-> AnyProv]
   /\ Rec("PiggyStart", SrcSeq[1], AnyProv, 0, 0, VisSeq) /\ last' = "park"
-  /\ UNCHANGED <<content, up, now, ticks, seq, write, rM, rU, w, seen, rep, goneAt, resets, prevVis, lastArg, hi>>
+  /\ UNCHANGED <<content, up, now, ticks, seq, write, rM, rU, w, seen, rep, goneAt, resets, pre, prevVis, lastArg, hi>>
 
 MissPark(p) ==      \* Get of a provider that is not in the snapshot while the lock is held
   /\ WithWaiter /\ Budget /\ w.pc # "idle" /\ waiter.kind = "none" /\ Visible(p) = NONE
   /\ waiter' = [kind |-> "miss", p |-> p]
   /\ Rec("MissPark", SrcSeq[1], p, 0, 0, VisSeq) /\ last' = "park"
-  /\ UNCHANGED <<content, up, now, ticks, seq, write, rM, rU, w, seen, rep, goneAt, resets, prevVis, lastArg, hi>>
+  /\ UNCHANGED <<content, up, now, ticks, seq, write, rM, rU, w, seen, rep, goneAt, resets, pre, prevVis, lastArg, hi>>
 
 WaiterProceed ==
   /\ Free /\ w.pc = "idle" /\ waiter.kind # "none"
@@ -303,7 +307,7 @@ WaiterProceed ==
      THEN /\ Rec("PiggyReturn", SrcSeq[1], AnyProv, 0, 0, VisSeq) /\ last' = "piggyReturn"
           /\ UNCHANGED <<w, write>>
      ELSE EnterMiss(waiter.p, "MissUnpark")
-  /\ UNCHANGED <<content, up, now, ticks, seq, rM, rU, seen, rep, goneAt, resets, prevVis, lastArg, hi>>
+  /\ UNCHANGED <<content, up, now, ticks, seq, rM, rU, seen, rep, goneAt, resets, pre, prevVis, lastArg, hi>>
 
 ---------------------------------------------------------------------------
 Next ==
